@@ -3755,6 +3755,18 @@ type rpPlainMap struct {
 	Balances map[uint32]uint16 ` + "`" + `serix:",lenPrefix=uint16"` + "`" + `
 }
 
+type rpRanges struct {
+	A uint8  ` + "`" + `serix:""` + "`" + `
+	B uint16 ` + "`" + `serix:""` + "`" + `
+	C uint32 ` + "`" + `serix:""` + "`" + `
+	D int8   ` + "`" + `serix:""` + "`" + `
+	E int32  ` + "`" + `serix:""` + "`" + `
+}
+
+type rpBoundedString struct {
+	S string ` + "`" + `serix:",lenPrefix=uint8,minLen=2,maxLen=4"` + "`" + `
+}
+
 type rpDirectory struct {
 	Names  map[string]string            ` + "`" + `serix:""` + "`" + `
 	Tags   map[string][]string          ` + "`" + `serix:""` + "`" + `
@@ -3848,6 +3860,31 @@ func TestVerifReplay(t *testing.T) {
 			re, err := api.Encode(ctx, got, opts...)
 			if err != nil || n != len(b) || !bytes.Equal(re, b[:n]) {
 				fail("validated Decode accepts % x (consumed %d) but re-encoding the decoded value gives % x, %v", b, n, re, err)
+			}
+		}
+		// integer kinds that travel as JSON numbers: the whole range round-trips
+		for _, rg := range []rpRanges{{0, 0, 0, 0, 0}, {127, 32767, 1<<31 - 1, 127, 1<<31 - 1}, {128, 32768, 1 << 31, -128, -1 << 31}, {255, 65535, 1<<32 - 1, -1, -7}} {
+			js, err := api.JSONEncode(ctx, &rg, opts...)
+			if err != nil {
+				fail("JSONEncode(%+v): %v", rg, err)
+			}
+			var back rpRanges
+			if err := api.JSONDecode(ctx, js, &back, opts...); err != nil || back != rg {
+				fail("JSONDecode(JSONEncode(%+v)) (validation %v) of %s: %+v, %v", rg, validation, js, back, err)
+			}
+		}
+		// without validation, what Encode accepts Decode reads back - also a string outside its declared bounds
+		if !validation {
+			for _, str := range []string{"", "x", "toolong"} {
+				bs := &rpBoundedString{S: str}
+				bin, err := api.Encode(ctx, bs)
+				if err != nil {
+					fail("Encode without validation of a string outside its bounds: %v", err)
+				}
+				var back rpBoundedString
+				if n, err := api.Decode(ctx, bin, &back); err != nil || n != len(bin) || back.S != str {
+					fail("Decode(Encode(%q)) without validation (declared bounds 2..4): %q, consumed %d of %d, %v", str, back.S, n, len(bin), err)
+				}
 			}
 		}
 		src := &rpDirectory{
